@@ -104,6 +104,7 @@ class Ownership:
         self.findings: List[Finding] = []
         self.sinks_seen = 0
         self.sink_sites: Dict[Tuple[str, str], Tuple[Func, ast.AST, str, bool]] = {}
+        self.identity_findings: List[Finding] = []
         self.cached_origins: Dict[Tuple[str, str], str] = {}
         for f in prog.funcs.values():
             if f.is_cached and self._returns_mutable(f):
@@ -121,6 +122,7 @@ class Ownership:
             self.findings = []
             self.sinks_seen = 0
             self.sink_sites = {}
+            self.identity_findings = []
             before = {k: s.key() for k, s in self.summaries.items()}
             for fn in prog.funcs.values():
                 Analyzer(self, fn).run()
@@ -402,10 +404,19 @@ class Analyzer:
         self.ret(st, self.elems(st, self.ev(st, e.value)), as_elem=True)
         return E
 
+    def cache_origins(self, st, v) -> Set[str]:
+        return {t[1] for t in self.reach(st, v) | self.elems(st, v) if t[0] in ("SH", "SHL") and t[1].startswith("cache:")}
+
     def ev_Compare(self, st, e):
-        self.ev(st, e.left)
-        for c in e.comparators:
-            self.ev(st, c)
+        left = self.ev(st, e.left)
+        for op, c in zip(e.ops, e.comparators):
+            right = self.ev(st, c)
+            if isinstance(op, (ast.In, ast.NotIn, ast.Is, ast.IsNot, ast.Eq, ast.NotEq)):
+                a, b = self.cache_origins(st, left), self.cache_origins(st, right)
+                if a and b and (a != b or len(a | b) > 1):
+                    pair = sorted((a | b))
+                    self.own.identity_findings.append(Finding(self.fn, self._stmt_of(e), f"{norm(e)[:80]}", " vs ".join(pair)))
+            left = right
         return E
 
     def ev_UnaryOp(self, st, e):
